@@ -127,8 +127,12 @@ def make_cases(tier, table, meshes):
                 stride = {"pair": (24 if fam == "hypercube" else 8) if heavy else (12 if fam == "hypercube" else 6), "single": 6 if heavy else 3}[mode]
                 if (k + ti) % stride != 0:
                     continue
+            if mode == "chain" and (k + ti) % 2 != 0:
+                continue          # three-cell chains (thorough tier only): every second one per family
             perm = PERMS[(k + 3 * ti) % len(PERMS)]
             add(m, t, perm, cubv=(k // 3) % 2 if tier == "thorough" else 0)
+            if tier == "thorough" and heavy and dim == 3 and k % 2 == 1:
+                cases[-1]["xcub"] = ""        # inter-mesh part on every second heavy 3D case only (cost)
     # structured meshes: the permutation strategies for every family
     for fam, dim in SHAPES:
         lvl = 0 if (fam == "simplex" and dim == 3) else 1       # 24 tetrahedra / 8 hexahedra / 4 quadrilaterals / 16 triangles
